@@ -5,7 +5,6 @@ import (
 	"fmt"
 	"os"
 	"path/filepath"
-	"regexp"
 	"strings"
 	"sync"
 	"sync/atomic"
@@ -24,7 +23,9 @@ import (
 
 var c05RegexTokens = []string{"ab", "cd", "e1", "c", `\d`, `\w`, `\s`, `\.`, `\/`, `\x41`, ".", "[ab]", "[^a]", "|", "(", ")", "*", "+", "{0,1}", "{1,2}", `\b`,
 	// groups next to an escaped backslash (text-level bracket handling and the parsed tree see them differently)
-	`\\(ab)`, `(cd\\)`, "{0,2}"}
+	`\\(ab)`, `(cd\\)`, "{0,2}",
+	// forms the standard compiler rejects (possessive quantifiers): if they are made to compile they must still obey the property
+	"++", "*+", "|e1"}
 
 type c05Counters struct {
 	rules, withShortcut, nontrivial, states, transitions, witnesses, capHit, invalid atomic.Int64
@@ -126,8 +127,8 @@ func c05CheckRule(c *Ctx, text, class string, cnt *c05Counters, alphabet []rune,
 	}
 }
 
-// c05RegexRules enumerates every token sequence of length 1..n that is a valid
-// regular expression, rendered as a /regex/ rule.
+// c05RegexRules enumerates every token sequence of length 1..n, rendered as a
+// /regex/ rule.
 func c05RegexRules(n int, f func(text string)) {
 	seen := map[string]bool{}
 	enum.SequencesUpTo(len(c05RegexTokens), n, func(s []int) bool {
@@ -143,9 +144,9 @@ func c05RegexRules(n int, f func(text string)) {
 			return true
 		}
 		seen[src] = true
-		if _, err := regexp.Compile(src); err != nil {
-			return true
-		}
+		// expressions the standard compiler rejects are passed on as well: the
+		// library marks them invalid (never matching); if it ever makes one match,
+		// the property applies to it
 		f("/" + src + "/")
 		return true
 	})
